@@ -20,8 +20,9 @@ COOKIE = b'1122334455667788aabbccdd'
 
 
 class AuthClientDriver:
-    def __init__(self, unix, cookie_ok, rng=None):
+    def __init__(self, unix, cookie_ok, rng=None, pref='stock'):
         self.unix = unix
+        self.pref = pref
         fakes.install_clock()
         self.dir = tempfile.mkdtemp(prefix='txv-ckr-')
         os.chmod(self.dir, 0o700)
@@ -35,6 +36,10 @@ class AuthClientDriver:
         os.environ['HOME'] = self.dir
         self.t = (fakes.UnixMemoryTransport if unix else fakes.MemoryTransport)()
         self.c = txdbus.client.DBusClientConnection()
+        if pref == 'alt':
+            # the application states its own preference, the documented way: a subclass of the authenticator
+            from txdbus import authentication as _a
+            self.c.authenticator = type('OwnChoice', (_a.ClientAuthenticator,), {'preference': [b'ANONYMOUS', b'EXTERNAL']})
         self.f = fakes.Factory()
         self.c.factory = self.f
         self.pos = 0
@@ -176,15 +181,16 @@ class AuthClientDriver:
 
 
 def make_driver(params, acts):
-    return AuthClientDriver(params['unix'], params['cookie'])
+    return AuthClientDriver(params['unix'], params['cookie'], pref=params.get('pref', 'stock'))
 
 
 replay_file = core.replay_file
 
 
-def client_cfg(unix, ck, pair=False):
-    s = 'SPECIFICATION %s\nCONSTANTS\n Unix = %s\n CookieOK = %s\nINVARIANT BeginSafe\nINVARIANT InOrderOnce\n' % (
-        'PairSpec' if pair else 'Spec', 'TRUE' if unix else 'FALSE', 'TRUE' if ck else 'FALSE')
+def client_cfg(unix, ck, pair=False, pref='stock'):
+    s = 'SPECIFICATION %s\nCONSTANTS\n Unix = %s\n CookieOK = %s\n Pref <- %s\nINVARIANT BeginSafe\nINVARIANT InOrderOnce\n' % (
+        'PairSpec' if pair else 'Spec', 'TRUE' if unix else 'FALSE', 'TRUE' if ck else 'FALSE',
+        'PrefAlt' if pref == 'alt' else 'PrefStock')
     if pair:
         s += 'PROPERTY Completes\nPROPERTY GivesUp\nPROPERTY NeverBoth\n'
     else:
@@ -193,7 +199,9 @@ def client_cfg(unix, ck, pair=False):
 
 
 def trace_cfg(params):
-    return 'CONSTANTS\n Unix = %s\n CookieOK = %s\n' % ('TRUE' if params['unix'] else 'FALSE', 'TRUE' if params['cookie'] else 'FALSE')
+    return 'CONSTANTS\n Unix = %s\n CookieOK = %s\n Pref <- %s\n' % (
+        'TRUE' if params['unix'] else 'FALSE', 'TRUE' if params['cookie'] else 'FALSE',
+        'PrefAlt' if params.get('pref') == 'alt' else 'PrefStock')
 
 
 def replay(chk, g, paths, params, label, skip=()):
@@ -206,7 +214,7 @@ def replay(chk, g, paths, params, label, skip=()):
         drv = []
 
         def mk(a):
-            d = AuthClientDriver(params['unix'], params['cookie'])
+            d = AuthClientDriver(params['unix'], params['cookie'], pref=params.get('pref', 'stock'))
             drv.append(d)
             return d
         failed, dif, steps = core.step_compare(mk, acts, states)
@@ -241,7 +249,7 @@ def replay_coalesced(chk, g, paths, params, label):
             acts = acts + [('AfterClose', ('ok',))]
         if len(acts) < 2:
             continue
-        drv = AuthClientDriver(params['unix'], params['cookie'])
+        drv = AuthClientDriver(params['unix'], params['cookie'], pref=params.get('pref', 'stock'))
         try:
             drv.project()
             drv.apply_many(acts)
@@ -314,6 +322,13 @@ def run(tier, seed):
     chk = core.Check('C07', tier, seed)
     rng = random.Random(seed)
     thorough = tier == 'thorough'
+    # an application that states its own preference (two mechanisms, another order)
+    pa = {'unix': True, 'cookie': True, 'pref': 'alt'}
+    res, ga = tlc.dump_graph('AuthClient', 'c.cfg', extra={'c.cfg': client_cfg(True, True, pref='alt')}, timeout=300, workers=4)
+    chk.tlc_stats(res, 'AuthClient own preference')
+    if not res.ok:
+        chk.violation('model: AuthClient(own preference) %s %s' % res.violation, dict(kind='TLC', trace=repr(res.trace[-3:])))
+    replay(chk, ga, list(core.edge_cover_paths(ga)), pa, 'own preference edges')
     for unix in (True, False):
         for ck in (True, False):
             params = {'unix': unix, 'cookie': ck}
